@@ -3,6 +3,7 @@
 use crate::common::{Args, Report};
 
 pub mod c01;
+pub mod c02;
 pub mod c03;
 pub mod c04;
 pub mod c05;
@@ -21,6 +22,7 @@ pub mod monitors;
 pub fn run(args: &Args, r: &mut Report) -> bool {
     match args.prop.as_str() {
         "C01" => c01::run(args, r),
+        "C02" => c02::run(args, r),
         "C03" => c03::run(args, r),
         "C04" => c04::run(args, r),
         "C05" => c05::run(args, r),
